@@ -7,7 +7,8 @@
      pdecl   = (name sig readable writeable emits)      emits: 0 False, 1 True, 2 'invalidates'
      dprop   = (attr pname () | (iface))
      history = (op ...)
-     op      = (0 attr val) | (1) | (2 i n) | (3 i n val) | (4 i)        val: Model/PyVal.v coding
+     op      = (0 attr val) | (1 c) | (2 c i n) | (3 c i n val) | (4 c i) | (5 c)     c: connection; 5 = unexport
+                                                                  val: Model/PyVal.v coding
 
    -> (wf compiled steps)
      wf       = 0/1      the declarations satisfy Spec.PropsSpec.wf (decided here)
@@ -15,8 +16,9 @@
      steps    = one entry per operation: (current legacy spec)
        current, legacy = (reply (signal ...))
          reply  = (0) completed | (1) raised | (2 sig val) | (3 ((name sig val) ...)) | (4) | (5) error reply
-         signal = (0 iface name sig val) | (1 ((iface ((name sig val) ...)) ...))
-       spec = (exported clear reply (changed-signal ...) write entries)
+         signal = (0 c iface name sig val) | (1 c ((iface ((name sig val) ...)) ...)) | (2 c (iface ...))
+       spec = (exported clear reply (changed-signal ...) write entries (exported-on-1 exported-on-2) handler)
+         exported = on the connection the call arrives on; handler = () | (c) connection of the latest export
          reply   = the specified Get reply, () for other operations
          write   = () | (iface name presentable notifies)   the property the operation assigns
          entries = GetAll: ((name (1 sig val) | (0)) ...) for the readable properties of the interface *)
@@ -68,15 +70,16 @@ Definition dec_op (s : sexp) : option op :=
   match s with
   | SList [SNum 0; a; v] =>
       match as_str a, pv_of_sexp v with Some a', Some v' => Some (OAssign a' v') | _, _ => None end
-  | SList [SNum 1] => Some OExport
-  | SList [SNum 2; i; n] =>
-      match as_str i, as_str n with Some i', Some n' => Some (OGet i' n') | _, _ => None end
-  | SList [SNum 3; i; n; v] =>
+  | SList [SNum 1; SNum c] => Some (OExport (Z.to_nat c))
+  | SList [SNum 5; SNum c] => Some (OUnexport (Z.to_nat c))
+  | SList [SNum 2; SNum c; i; n] =>
+      match as_str i, as_str n with Some i', Some n' => Some (OGet (Z.to_nat c) i' n') | _, _ => None end
+  | SList [SNum 3; SNum c; i; n; v] =>
       match as_str i, as_str n, pv_of_sexp v with
-      | Some i', Some n', Some v' => Some (OSet i' n' v')
+      | Some i', Some n', Some v' => Some (OSet (Z.to_nat c) i' n' v')
       | _, _, _ => None
       end
-  | SList [SNum 4; i] => option_map OGetAll (as_str i)
+  | SList [SNum 4; SNum c; i] => option_map (OGetAll (Z.to_nat c)) (as_str i)
   | _ => None
   end.
 
@@ -97,8 +100,9 @@ Definition enc_reply (r : reply) : sexp :=
 
 Definition enc_signal (s : signal) : sexp :=
   match s with
-  | SigChanged i n sg v => SList (SNum 0 :: sstr i :: sstr n :: enc_var (sg, v))
-  | SigAdded d => SList [SNum 1; SList (map (fun e => SList [sstr (fst e); enc_dict (snd e)]) d)]
+  | SigChanged c i n sg v => SList (SNum 0 :: snat c :: sstr i :: sstr n :: enc_var (sg, v))
+  | SigAdded c d => SList [SNum 1; snat c; SList (map (fun e => SList [sstr (fst e); enc_dict (snd e)]) d)]
+  | SigRemoved c l => SList [SNum 2; snat c; SList (map sstr l)]
   end.
 
 Definition enc_out (o : reply * list signal) : sexp :=
@@ -111,9 +115,9 @@ Definition enc_pres (r : res (str * pyval)) : sexp :=
   end.
 
 Definition enc_spec (h : hier) (hist : list op) (o : op) : sexp :=
-  let ex := exported hist in
-  let clr := match o with OGet i n | OSet i n _ => clear_b h i n | _ => true end in
-  let rp := match o with OGet i n => SList [enc_reply (s_get present h hist i n)] | _ => SList [] end in
+  let ex := exported_on hist (arrives o) in
+  let clr := match o with OGet _ i n | OSet _ i n _ => clear_b h i n | _ => true end in
+  let rp := match o with OGet c i n => SList [enc_reply (s_get present h hist c i n)] | _ => SList [] end in
   let ch := SList (map enc_signal (s_changed present h hist o)) in
   let wr := match write_of h ex o with
             | Some (d, v) => SList [sstr (dc_iface d); sstr (dc_name d);
@@ -121,7 +125,7 @@ Definition enc_spec (h : hier) (hist : list op) (o : op) : sexp :=
             | None => SList []
             end in
   let en := match o with
-            | OGetAll i =>
+            | OGetAll _ i =>
                 SList (map (fun n => SList [sstr n; match s_entry present h hist i n with
                                                       | Some r => enc_pres r
                                                       | None => SList [SNum 0]
@@ -131,7 +135,8 @@ Definition enc_spec (h : hier) (hist : list op) (o : op) : sexp :=
                                                     then acc ++ [dc_name d] else acc) (declared h) []))
             | _ => SList []
             end in
-  SList [sbool ex; sbool clr; rp; ch; wr; en].
+  SList [sbool ex; sbool clr; rp; ch; wr; en;
+         SList [sbool (exported_on hist 1); sbool (exported_on hist 2)]; sopt snat (handler_of hist)].
 
 Fixpoint go (h : hier) (bs : list (list bind)) (stc stl : state) (done : list op) (todo : list op) : list sexp :=
   match todo with
